@@ -17,6 +17,7 @@ import (
 
 	"verif/checks/pj"
 	"verif/engine/core"
+	"verif/ref/poolpoison"
 )
 
 type check struct{}
@@ -122,6 +123,9 @@ func (jc *jcase) toCase() core.Case {
 						core.Catch(func() { cv.Do(context.Background(), c.In, append([]byte{}, d.prime...)) })
 					}
 					pi := core.Catch(func() { out, cerr = cv.Do(context.Background(), c.In, in) })
+					if pi == nil && cerr == nil && poolpoison.Aliased(out) {
+						add("j2p.Do", "result-aliases-pooled-buffer", "the %d bytes returned by Do change when the buffers in the converters' pool are overwritten\ndocument %s", len(out), clip(d.text))
+					}
 					expect := d.expect
 					if expect == wantErrorIfDisallow {
 						if opts.DisallowUnknownField {
